@@ -40,8 +40,7 @@ namespace occa {
     if (!modeStream) {
       return;
     }
-    modeStream->removeStreamRef(this);
-    if (modeStream->modeStream_t::needsFree()) {
+    if (modeStream->removeStreamRef(this)) {
       free();
     }
   }
